@@ -478,6 +478,8 @@ def run(ctx, load):
     check_backshift(P, ctx)
     check_layout(P, ctx)
     check_scratch(P, ctx)
+    from .rules_c03 import check_assign_rebuilds
+    check_assign_rebuilds(P, ctx, 'Table', 'Table_Clear', 'Table_Set_Move', 'C02.assign-rebuilds')
     if ctx.tier == 'thorough':
         for cfg in ('ndebug',):
             Pc = load(UNITS, cfg)
